@@ -369,6 +369,22 @@ impl World for SigstoreWorld {
             passes: vec![],
             disk: None,
         };
+        if rng.chance(1, if tier == Tier::Quick { 60 } else { 40 }) {
+            // one bucket of the on-disk store holding an exact multiple of what fits a 1 MiB (or 64 KiB) read block:
+            // buffered readers and block-wise splitting meet their boundaries
+            let size = match (c.s.as_str(), c.v.as_str()) {
+                ("s1", "empty") => 8,
+                ("s2", "u8") | ("s2", "u64") | ("s2", "usize") => 24,
+                _ => 16,
+            };
+            let block = *rng.pick(&[1usize << 20, 1 << 20, 1 << 16]);
+            c.n = (block / size) * rng.urange(1, 2) + *rng.pick(&[0usize, 0, 0, 1]);
+            c.offline = true;
+            c.bucket_bits = 0;
+            c.max_shard_bits = c.max_shard_bits.max(2);
+            c.shard_bits = rng.urange(1, c.max_shard_bits as usize) as u32;
+            c.dist = "uniform".into();
+        }
         for _ in 0..rng.urange(0, 3) {
             if rng.chance(1, 3) {
                 c.passes.push(Pass::Partial(rng.urange(0, 1 << shard_bits)));
